@@ -9,9 +9,9 @@ import (
 	"errors"
 	"fmt"
 	"io"
-	"os"
 	"math/rand/v2"
 	"net"
+	"os"
 	"testing/synctest"
 	"time"
 
@@ -166,7 +166,7 @@ func runListenerConc(h *common.History, seed uint64) {
 			}
 		})
 	}
-	for i, n := 0, rng.IntN(4); i < n; i++ {
+	for i, n := 0, rng.IntN(6); i < n; i++ {
 		acceptsBeforeClose++
 		closeAtOnce := rng.IntN(2) == 0 // the caller is done with the connection as soon as it has it
 		launch("accept", func() {
@@ -231,9 +231,19 @@ func runListenerConc(h *common.History, seed uint64) {
 	}
 	// seeded schedule with arrivals in between
 	steps := 20 + rng.IntN(120)
+	hot := -1 // a remote whose connection is being closed: arrivals racing with that Close
+	for _, a := range accepted {
+		if rng.IntN(2) == 0 {
+			hot = a.rem
+		}
+	}
 	for i := 0; i < steps; i++ {
-		if rng.IntN(12) == 0 {
-			deliver(rng.IntN(nrem+2), byte(2+i%200))
+		if rng.IntN(10) == 0 {
+			rem := rng.IntN(nrem + 2)
+			if hot >= 0 && rng.IntN(2) == 0 {
+				rem = hot
+			}
+			deliver(rem, byte(2+i%200))
 			continue
 		}
 		rs := s.Runnable()
